@@ -34,7 +34,7 @@ func (v tval) String() string {
 	switch v.kind {
 	case "double", "float":
 		return fmt.Sprintf("%s(%v/0x%x)", v.kind, v.f, math.Float64bits(v.f))
-	case "string":
+	case "string", "stringbytes":
 		if len(v.s) > 16 {
 			return fmt.Sprintf("string(len=%d)", len(v.s))
 		}
@@ -61,6 +61,8 @@ func (v tval) put(ctx context.Context, m *message.Message) error {
 		return m.PutChar(ctx, byte(v.i))
 	case "string":
 		return m.PutString(ctx, v.s)
+	case "stringbytes":
+		return m.PutStringBytes(ctx, []byte(v.s))
 	}
 	panic(v.kind)
 }
@@ -75,7 +77,7 @@ func (v tval) ref(enc bool) []byte {
 		return refcodec.EncDouble(float64(float32(v.f)))
 	case "char":
 		return []byte{byte(v.i)}
-	case "string":
+	case "string", "stringbytes":
 		return refcodec.EncString(v.s, enc)
 	}
 	panic(v.kind)
@@ -146,7 +148,7 @@ func (v tval) getCheck(ctx context.Context, m *message.Message) error {
 		if int64(g) != v.i {
 			return fmt.Errorf("decoded %d", g)
 		}
-	case "string":
+	case "string", "stringbytes":
 		g, err := m.GetString(ctx)
 		if err != nil {
 			return err
@@ -322,7 +324,7 @@ func c14Values(tier string) []tval {
 	syms := []string{"a", "é", "€", " ", `"`}
 	var rec func(s string, d int)
 	rec = func(s string, d int) {
-		vs = append(vs, tval{kind: "string", s: s})
+		vs = append(vs, tval{kind: "string", s: s}, tval{kind: "stringbytes", s: s})
 		if d == 3 {
 			return
 		}
@@ -439,6 +441,12 @@ func C14Plan() *vlib.Plan {
 					yield(run(fmt.Sprintf("pending-%s+long/%d/enc=%v", pend.kind, n, enc), []tval{pend, c14Long(n)}, enc, "boundary"))
 					if n%4 == 0 {
 						yield(run(fmt.Sprintf("long+%s/%d/enc=%v", pend.kind, n, enc), []tval{c14Long(n), pend}, enc, "boundary"))
+					}
+					// the same through the byte-slice string writer
+					lb := c14Long(n)
+					lb.kind = "stringbytes"
+					if n%2 == 0 {
+						yield(run(fmt.Sprintf("pending-%s+longbytes+%s/%d/enc=%v", pend.kind, pend.kind, n, enc), []tval{pend, lb, pend}, enc, "boundary"))
 					}
 				}
 			}
